@@ -126,6 +126,31 @@ def blk_raw(msg, number):
     return "-"
 
 
+# where the resources of a World are registered when a script goes through a `Site`: (resource index,
+# path).  Resources 0 and 3 are reachable under more than one path (an alias, and for 0 also through a
+# nested site), so that one resource object -- one spool, one cache -- serves several URIs.
+SITE_PATHS = [(0, ("r0",)), (0, ("alias", "of", "r0")), (0, ("sub", "r0")),
+              (1, ("r1",)), (2, ("r2",)), (2, ("sub", "r2")), (3, ("r3",)), (3, ("r3", "again"))]
+
+
+class Held:
+    """A request whose handler has been invoked and is suspended (or a request that is answered)."""
+
+    def __init__(self):
+        self.task = None
+        self.events = []
+        self.raised = []
+        self.release = None       # future the handler waits for
+        self.wake = None          # future of the harness: something happened
+        self.seen = []
+        self.entry = "-"
+        self.entered = None       # the request as the resource got it
+        self.direct_result = None
+        self.wake2 = None
+        self.res_index = None
+        self.obs_call = None
+
+
 class World:
     """The implementation side of one script: resources of the tree under test on a VLoop."""
 
@@ -154,17 +179,29 @@ class World:
             async def needs_blockwise_assembly(self, request):
                 return self.assemble
 
+            async def render_to_pipe(self, pipe):
+                world.entries.append((self, pipe.request))
+                return await super().render_to_pipe(pipe)
+
             async def render(self, request):
                 world.seen.append(request)
                 world.seen_snap.append(
                     (int(request.code), request.opt.block1, request.opt.block2,
                      opts_of(request), bytes(request.payload)))
-                hcode, hopts, hpayload = world.script_response[:3]
-                if len(world.script_response) > 3 and world.script_response[3]:
-                    raise world.exception_of(world.script_response[3])
+                # what this invocation answers is fixed when it begins
+                script_response = world.script_response
+                cur = world.current
+                if cur is not None and world.hold:
+                    # the handler suspends (it waits for a back end, say) until the script lets it go on
+                    cur.release = world.loop.create_future()
+                    if not cur.wake.done():
+                        cur.wake.set_result("entered")
+                    await cur.release
+                hcode, hopts, hpayload = script_response[:3]
+                if len(script_response) > 3 and script_response[3]:
+                    raise world.exception_of(script_response[3])
                 from aiocoap import Message
                 from aiocoap.numbers.optionnumbers import OptionNumber
-                from aiocoap.optiontypes import OpaqueOption
                 m = Message(code=aiocoap.Code(hcode), payload=hpayload)
                 for n, v in hopts:
                     on = OptionNumber(n)
@@ -185,6 +222,10 @@ class World:
             async def needs_blockwise_assembly(self, request):
                 return self.assemble
 
+            async def render_to_pipe(self, pipe):
+                world.entries.append((self, pipe.request))
+                return await super().render_to_pipe(pipe)
+
             async def add_observation(self, request, serverobservation):
                 world.obs_calls.append(
                     (int(request.code), request.opt.block1, request.opt.block2, bytes(request.payload)))
@@ -199,15 +240,37 @@ class World:
         self.seen_snap = []
         self.obs_calls = []
         self.obs_cancelled = []
+        self.entries = []
         self.script_response = None
+        self.current = None
+        self.hold = False
+        self.tasks = []
         asyncio.set_event_loop(None)
         # resources 0 and 1 are plain, 2 is an observable resource that declines observations, 3 one
         # that accepts them
         makers = [TestResource, TestResource, lambda: TestObservable(False), lambda: TestObservable(True)]
         self.resources = [makers[i % 4]() for i in range(n_resources)]
         self.observable = [i % 4 >= 2 for i in range(n_resources)]
+        self.site = None
+        if n_resources >= 4:
+            self.site = resource.Site()
+            subs = {}
+            for ri, path in SITE_PATHS:
+                if path[0] == "sub":
+                    if "sub" not in subs:
+                        subs["sub"] = resource.Site()
+                        self.site.add_resource(["sub"], subs["sub"])
+                    subs["sub"].add_resource(list(path[1:]), self.resources[ri])
+                else:
+                    self.site.add_resource(list(path), self.resources[ri])
 
     def close(self):
+        for t in self.tasks:
+            if not t.done():
+                t.cancel()
+        pend = [t for t in self.tasks if not t.done()]
+        if pend and not self.loop.is_closed():
+            self.loop.run_until_complete(asyncio.gather(*pend, return_exceptions=True))
         self.loop.cancel_all()
         self.loop.close()
 
@@ -255,14 +318,32 @@ class World:
         from aiocoap.blockwise import Block1Spool, Block2Cache
         self.direct = [(Block1Spool(), Block2Cache()) for _ in range(n)]
 
-    async def request_direct(self, res_index, assemble, msg, script_response):
-        """The same request against a bare spool/cache pair, wired as `_render_to_pipe` wires
-        them; exceptions are reported by class and rendered with their own `to_message`."""
+    # -- one request: `arrive` runs it until it is answered or its handler is suspended (only when
+    # `hold` is set); `finish` lets a suspended handler go on and collects the answer.
+
+    async def _arrive(self, h, coro, script_response, hold):
+        self.script_response = script_response
+        self.current = h
+        self.hold = hold
+        n_before = len(self.seen_snap)
+        h.wake = self.loop.create_future()
+        h.task = self.loop.create_task(coro)
+        self.tasks.append(h.task)
+        h.task.add_done_callback(lambda t: h.wake.done() or h.wake.set_result("done"))
+        await h.wake
+        self.current = None
+        self.hold = False
+        h.seen = self.seen_snap[n_before:]
+        return h.release is not None and not h.task.done() and not h.events and h.direct_result is None
+
+    async def arrive_direct(self, res_index, assemble, msg, script_response, hold=False):
+        """The request against a bare spool/cache pair, wired as `_render_blockwise` wires them;
+        exceptions are reported by class and rendered with their own `to_message`.
+        Returns (Held, pending?)."""
         from aiocoap import Message, error
         spool, cache = self.direct[res_index]
-        self.script_response = script_response
-        n_before = len(self.seen_snap)
         render = self.resources[0].render
+        h = Held()
 
         async def go():
             try:
@@ -272,37 +353,38 @@ class World:
                     res.opt.block1 = req.opt.block1
                 else:
                     res = await render(msg)
-                return res, None
+                h.direct_result = (res, None)
             except error.RenderableError as e:
-                return e.to_message(), type(e).__name__
+                h.direct_result = (e.to_message(), type(e).__name__)
             except Exception as e:
-                return Message(code=self.aiocoap.Code(160)), "escaped:" + type(e).__name__
+                h.direct_result = (Message(code=self.aiocoap.Code(160)), "escaped:" + type(e).__name__)
 
-        res, exc = await go()
-        self.last_entry = "-"
-        self.last_open = False
-        return res, exc, self.seen_snap[n_before:]
+        pending = await self._arrive(h, go(), script_response, hold)
+        return h, pending
 
-    async def request(self, res_index, assemble, msg, script_response):
-        """One request through the real `render_to_pipe` behind the real `error_to_message`.
-        Returns (response message, exception class name or None, list of handler snapshots).
-        `self.last_entry` afterwards: `-` for a plain resource, `o` / `p` for an observable one
-        (`add_observation` called or not); `self.last_open`: the first response was not marked as
-        the last one (an accepted observation; the rendering task is then cancelled)."""
+    async def arrive(self, res_index, assemble, msg, script_response, hold=False, site=False):
+        """One request through the real `render_to_pipe` (of the resource, or of the `Site` the
+        resources are registered at) behind the real `error_to_message`.  Returns (Held, pending?);
+        `h.entry`: `-` for a plain resource, `o` / `p` for an observable one (`add_observation` called
+        or not); `h.entered`: the request as the resource was handed it."""
         from aiocoap.pipe import Pipe, error_to_message
-        res = self.resources[res_index]
-        res.assemble = assemble
-        self.script_response = script_response
-        n_before = len(self.seen_snap)
+        h = Held()
         n_obs = len(self.obs_calls)
-        events = []
-        raised = []
-        first = self.loop.create_future()
+        n_ent = len(self.entries)
+        if site:
+            target = self.site
+            for r in self.resources:       # `needs_blockwise_assembly` is asked of the resource
+                r.assemble = assemble
+        else:
+            target = self.resources[res_index]
+            target.assemble = assemble
 
         def on_event(e):
-            events.append(e)
-            if not first.done():
-                first.set_result(None)
+            h.events.append(e)
+            if not h.wake.done():
+                h.wake.set_result("event")
+            if h.wake2 is not None and not h.wake2.done():
+                h.wake2.set_result("event")
             return not e.is_last
 
         async def go():
@@ -310,25 +392,50 @@ class World:
             outer.on_event(on_event)
             inner = error_to_message(outer, LOG)
             try:
-                await res.render_to_pipe(inner)
+                await target.render_to_pipe(inner)
             except Exception as e:        # what run_driving_pipe does with it
-                raised.append(e)
+                h.raised.append(e)
                 inner.add_exception(e)
 
-        task = self.loop.create_task(go())
-        task.add_done_callback(lambda t: first.done() or first.set_result(None))
-        await first
-        if not task.done():
-            # an observation was set up: the pipe stays open for notifications; end it here
-            task.cancel()
-        await asyncio.gather(task, return_exceptions=True)
-        msgs = [e for e in events if e.message is not None]
-        if len(msgs) != 1:
-            raise HarnessError(f"expected exactly one response, got {events!r}")
+        pending = await self._arrive(h, go(), script_response, hold)
+        ents = self.entries[n_ent:]
+        if len(ents) > 1:
+            raise HarnessError("one request entered more than one resource")
+        if ents:
+            h.entered = ents[0][1]
+            h.res_index = self.resources.index(ents[0][0])
+        else:
+            h.entered = None
+            h.res_index = None
         n_calls = len(self.obs_calls) - n_obs
         if n_calls > 1:
             raise HarnessError("add_observation called more than once for one request")
-        self.last_entry = "-" if not self.observable[res_index] else ("o" if n_calls else "p")
-        self.last_open = not msgs[0].is_last
-        exc = [x for x in raised if x is not None]
-        return msgs[0].message, (type(exc[0]).__name__ if exc else None), self.seen_snap[n_before:]
+        if h.res_index is None:
+            h.entry = "-"
+        else:
+            h.entry = "-" if not self.observable[h.res_index] else ("o" if n_calls else "p")
+        h.obs_call = self.obs_calls[-1] if n_calls else None
+        return h, pending
+
+    async def finish(self, h, release=False):
+        """Collect the answer of a request; `release`: its handler is suspended and goes on now.
+        Returns (response message, exception class name or None, open?)."""
+        if release:
+            h.wake2 = self.loop.create_future()
+            h.task.add_done_callback(lambda t: h.wake2.done() or h.wake2.set_result("done"))
+            h.release.set_result(None)
+            await h.wake2
+        if not h.task.done():
+            if not h.events:
+                raise HarnessError("request neither answered nor suspended in its handler")
+            # an observation was set up: the pipe stays open for notifications; end it here
+            h.task.cancel()
+        await asyncio.gather(h.task, return_exceptions=True)
+        if h.direct_result is not None:
+            res, exc = h.direct_result
+            return res, exc, False
+        msgs = [e for e in h.events if e.message is not None]
+        if len(msgs) != 1:
+            raise HarnessError(f"expected exactly one response, got {h.events!r}")
+        exc = [x for x in h.raised if x is not None]
+        return msgs[0].message, (type(exc[0]).__name__ if exc else None), not msgs[0].is_last
